@@ -3,6 +3,7 @@ Ghost (statement of C04): set of nodes, map (frozenset, layer) -> [weight, metad
 import copy
 from .containers import Reject, Unspecified, UNKNOWN, msort, tuplify
 from .ad_temporal import hg_view
+from .ad_hypergraph import FILTERS, fname, sel
 
 
 class Ghost:
@@ -214,6 +215,12 @@ class MultiplexAdaptor:
             inc = [k for k in E if n in k[0]]
             o[f"get_incident_edges({n!r})"] = msort(show(k) for k in inc)
             o[f"degree({n!r})"] = len(inc)
+        for f in FILTERS[1:]:
+            o[f"degree_sequence({fname(f)})"] = {repr(n): sum(1 for k in E if n in k[0] and sel(len(k[0]), f)) for n in V}
+            for n in V:
+                inc = [k for k in E if n in k[0] and sel(len(k[0]), f)]
+                o[f"get_incident_edges({n!r},{fname(f)})"] = msort(show(k) for k in inc)
+                o[f"degree({n!r},{fname(f)})"] = len(inc)
         agg = {}
         for k in E:
             agg[k[0]] = (agg.get(k[0], 0) + E[k][0]) if g.weighted else 1
@@ -248,6 +255,11 @@ class MultiplexAdaptor:
         for n in nodes:
             q(f"get_incident_edges({n!r})", lambda n=n: msort(S(e) for e in h.get_incident_edges(n)))
             q(f"degree({n!r})", lambda n=n: h.degree(n))
+        for f in FILTERS[1:]:
+            q(f"degree_sequence({fname(f)})", lambda f=f: {repr(n): d for n, d in h.degree_sequence(**f).items()})
+            for n in nodes:
+                q(f"get_incident_edges({n!r},{fname(f)})", lambda n=n, f=f: msort(S(e) for e in h.get_incident_edges(n, **f)))
+                q(f"degree({n!r},{fname(f)})", lambda n=n, f=f: h.degree(n, **f))
         q("aggregated_hypergraph()", lambda: hg_view(h.aggregated_hypergraph()))
         q("get_hypergraph_metadata()", lambda: copy.deepcopy(h.get_hypergraph_metadata()))
         return o
